@@ -18,7 +18,8 @@ CHECKS = {
  "C02": dict(
    text="Bounded model checking of the three dispatch tables: every ASCII key of <=3 bytes is found iff it is a documented name; every one-edit neighbour "
         "(substitution / insertion / deletion / case flip at a symbolic position with a symbolic byte) of the documented names is found iff it is itself a name; "
-        "literals (scalars, arrays even when they contain an operation, {}, non-operator single-key objects) parse to Raw and evaluate to the very same value (pointer identity).",
+        "literals (scalars, arrays even when they contain an operation or an object, {}, non-operator single-key objects) parse to Raw and evaluate to the very same value (pointer identity); "
+        "the public apply() on scalar literals returns a value identical in type, value and number spelling.",
    note=KANI_NOTE + "Near-miss families: 12 (name, edit) pairs in the quick tier, all 35 names x 4 edits in the thorough tier. Unit = Parsed::from_value / op_from_map, not apply.",
    design="4/C02"),
  "C03": dict(
@@ -36,7 +37,8 @@ CHECKS = {
  "C06": dict(
    text="Bounded model checking of truthy(), the ! / !! table closures and the if / and / or users against the JsonLogic table, for every scalar "
         "payload (all i64/u64/f64 incl. -0.0), strings of <=2 symbolic chars, [], [0], [[]], {}, {a:false}.",
-   note=KANI_NOTE + "Users are driven with literal operands (asserted cuts make operation operands unreachable); filter/all/some/none users only in the thorough tier.",
+   note=KANI_NOTE + "Users are driven with literal operands (asserted cuts make operation operands unreachable). filter / some / all users: three (predicate shape, operator) pairs in the quick tier "
+        "(recording twin of Parsed::from_value + bounded clone model, 11 GB each), more in the thorough tier.",
    design="4/C06"),
  "C07": dict(
    text="Bounded model checking of abstract_eq/abstract_ne over the operand-shape pair matrix (null, bool, i64, u64, f64, string, [s], [], {}) with fully "
@@ -69,7 +71,7 @@ CHECKS = {
    design="4/C11"),
  "C15": dict(
    text="Bounded model checking of `in`: all 9 number representation pairs with every payload (member iff numerically equal), scalar membership by type and value, "
-        "null haystack false, scalar/object haystack error, string haystack with non-string needle error; `merge` on the empty and single-scalar operand lists.",
+        "null haystack false, scalar/object haystack error, string haystack with non-string needle error; `merge` of scalar operands (null included) keeps each as one element in order.",
    note=KANI_NOTE + "merge with array operands, substring search and object needles are in the thorough tier / outside (Vec growth and str::contains exceed 8-12 GB in CBMC).",
    design="4/C15"),
  "C16": dict(
